@@ -34,7 +34,8 @@ RULE = ('case = one round (N clients, delay profile, shared or separate client e
 ASSUMPTIONS = ['loopback TCP is reliable']
 REQUIRED = ['oracle.client-exact', 'oracle.server-conservation', 'oracle.healthy-undisturbed',
             'oracle.msg-id-per-thread', 'oracle.non-interference', 'baton.switches',
-            'oracle.simultaneous-refusals', 'oracle.local-title-per-call']
+            'oracle.simultaneous-refusals', 'oracle.local-title-per-call',
+            'oracle.simultaneous-retrieves', 'sim.overlapping-retrieves']
 
 ROUNDS = {'quick': 24, 'thorough': 240}
 SIZES = {'quick': [16, 16, 4, 16, 24, 16, 8, 16], 'thorough': [4, 16, 16, 48, 16, 32, 8, 16]}
@@ -52,6 +53,8 @@ def plan(tier, seed):
     specs.append({'name': 'msg-id'})
     for k in range(REJECT_ROUNDS[tier]):
         specs.append({'name': 'reject', 'index': k, 'n': [8, 16, 32, 12][k % 4]})
+    for k in range(MOVE_ROUNDS[tier]):
+        specs.append({'name': 'move', 'index': k, 'n': [4, 8, 16, 2][k % 4]})
     nb = BATON_ROUNDS[tier]
     for part in range(8):
         specs.append({'name': 'baton', 'lo': part * nb // 8, 'hi': (part + 1) * nb // 8})
@@ -60,6 +63,7 @@ def plan(tier, seed):
 
 BATON_ROUNDS = {'quick': 400, 'thorough': 20000}
 REJECT_ROUNDS = {'quick': 8, 'thorough': 120}
+MOVE_ROUNDS = {'quick': 8, 'thorough': 120}
 
 
 def run_shard(spec, tier, seed):
@@ -68,6 +72,10 @@ def run_shard(spec, tier, seed):
         from . import c20baton
         for k in range(spec['lo'], spec['hi']):
             c20baton.run_round(res, {'baton': True, 'round': k, 'seed': seed})
+        return res
+    if spec['name'] == 'move':
+        from . import c20move
+        c20move.run_round(res, {'move': True, 'round': spec['index'], 'n': spec['n'], 'seed': seed})
         return res
     if spec['name'] == 'reject':
         from . import c20reject
@@ -84,6 +92,10 @@ def replay(case):
     if case.get('baton'):
         from . import c20baton
         c20baton.run_round(res, case)
+        return res
+    if case.get('move'):
+        from . import c20move
+        c20move.run_round(res, case)
         return res
     if case.get('reject'):
         from . import c20reject
